@@ -221,7 +221,9 @@ impl World {
             let what = info.as_ref().and_then(|i| i.blocked.get()).map(|b| b.0).unwrap_or("(runtime task)");
             let ops_before = self.log.borrow().ops_done;
             let bsteps = self.stats.broker_steps;
+            crate::api_transport::PROBING.with(|p| p.set(true));
             let outcome = self.exec.poll(t);
+            crate::api_transport::PROBING.with(|p| p.set(false));
             self.drain_spawner();
             self.process_tap();
             self.exec.ready_tasks(&mut ready);
